@@ -44,6 +44,22 @@ if TYPE_CHECKING:
     from octave_mcp.core.schema_extractor import SchemaDefinition
 
 
+# Rules that compile_schema() itself defines around the field rules
+_STRUCTURAL_RULE_NAMES = frozenset(
+    {
+        "ws",
+        "field",
+        "content",
+        "document",
+        "root",
+        "envelope-start",
+        "envelope-end",
+        "meta-block",
+        "meta-content",
+        "meta-field",
+    }
+)
+
 # CONTRACT field parsing pattern: FIELD[name]::constraints
 _CONTRACT_FIELD_PATTERN = re.compile(r"^FIELD\[([^\]]+)\]::(.+)$")
 
@@ -620,9 +636,19 @@ class GBNFCompiler:
 
         # Build field rules
         field_rule_names: list[str] = []
+        # Names of the structural rules below; a field rule must not redefine one of them
+        used_rule_names = set(_STRUCTURAL_RULE_NAMES)
 
         for field_name, field_def in schema.fields.items():
-            rule_name = self._sanitize_rule_name(field_name)
+            # Two field names can sanitise alike (A.B / a_dot_b, Name / NAME) or like a
+            # structural rule (WS, CONTENT): number the later one so no rule is defined twice
+            base_rule_name = self._sanitize_rule_name(field_name)
+            rule_name = base_rule_name
+            suffix = 2
+            while rule_name in used_rule_names:
+                rule_name = f"{base_rule_name}_{suffix}"
+                suffix += 1
+            used_rule_names.add(rule_name)
             field_rule_names.append(rule_name)
 
             # Get constraint pattern
